@@ -101,6 +101,19 @@ def table_v3_override(fam, tag, fixed):
     return t
 
 
+_V3_MSAX = ["AV", "AC", "PR", "UI", "S", "C", "I", "A", "MS", "CR", "IR", "AR"]
+
+
+def table_v3_ms_only(fam):
+    """Only Modified Scope is written (all other Modified metrics inherit): the PR weight of the
+    inherited MPR must follow the *Modified* Scope."""
+    dom = dict((m, [v for v in T.V3[m] if v != "X"]) for m in _V3_MSAX)
+    axes = [(m, dom[m], T.ORDER3["S"] if m == "MS" else T.ORDER3[m]) for m in _V3_MSAX]
+    exempt = [(2, m) for m in ("C", "I", "A", "CR", "IR", "AR")]
+    return Table("v%s.ms_only" % fam, fam, axes, 3, (0, 1, 2), exempt=exempt if fam == "3.0" else (),
+                 keyfn=lambda asg: [asg[m] for m in _V3_MSAX])
+
+
 _V2_AX = ["AV", "AC", "Au", "C", "I", "A", "E", "RL", "RC"]
 
 
@@ -204,6 +217,8 @@ def run(ctx, res):
         tsk = spaces.v3_temporal_effective() if ctx.thorough else spaces.v3_temporal_skeleton(12)
         add(table_v3_inherit(fam), [Block("base_x_temporal_x_req", fam, spaces.v3_base_all(), tsk,
                                           spaces.v3_req_all())])
+        add(table_v3_ms_only(fam), [Block("base_x_ms_x_req", fam, spaces.v3_base_all(),
+                                          parts(["MS"], {"MS": ["U", "C"]}), spaces.v3_req_all())])
         bases = [("AV:P/AC:H/PR:H/UI:R/S:U/C:N/I:N/A:N", "low"),
                  ("AV:A/AC:L/PR:L/UI:N/S:C/C:L/I:H/A:L", "mid")]
         if not ctx.thorough:
